@@ -202,6 +202,7 @@ def real_render(jinja2, b0, flag, t, d, dl, src=None):
 
 # ------------------------------------------------------------------ generator
 TEXT_SAFE = ["", "t", " ", "txt ", "[", "]", ";", "T1", "-", "amp;", "lt;", "x=1", "a b", "#34;", ". "]
+TEXT_FIN = ["TXa ", "TXb;", "[TXc]", "TXd"]      # recognisable template text (finalize stream of C15)
 TEXT_META = ["<b>", "</b>", "<p class=\"c\">", "'", "<i>x</i> "]
 TEXT_AMP = ["&", "&amp;", "&lt;", "&#39;", "& ", "&amp;lt;", "&unknown;", "&#x3c;", "&lt"]
 WORDS = ["foo", "Bar", "b a z", "x1", "", "Hello World", "q", "amp;", "lt;b", "A;B"]
@@ -261,6 +262,8 @@ class LGen:
         return d, dl
 
     def text(self):
+        if "fin" in self.text_pools:
+            return self.r.choice(TEXT_FIN)
         pool = list(TEXT_SAFE)
         if "meta" in self.text_pools:
             pool += TEXT_META
